@@ -1537,7 +1537,16 @@ func genCacheOps(r *rng, p *plan.Plan, focus, arm string) {
 		switch focus {
 		case "C19":
 			// the refresh: slow, failing, negative or truncated
-			switch r.intn(6) {
+			switch r.intn(7) {
+			case 5:
+				// the refresh comes back with a much lower TTL than what is left
+				// of the old entry: it takes the entry's place all the same
+				if a.Rcode == 0 && a.NAn > 0 && life >= 10 {
+					low := *a
+					low.TTLs = []uint32{uint32(r.rng(1, 2))}
+					t.Ans2, t.Ans2From = &low, 1
+				}
+				t.Acts = append(t.Acts, plan.UpAction{Kind: "reply", DelayUs: delay()})
 			case 0:
 				t.Acts = append(t.Acts, plan.UpAction{Kind: "reply", DelayUs: r.i64(1000, 5_500_000)})
 			case 1:
